@@ -156,26 +156,56 @@ def selector_check(ctx, rule, qual, groups):
 
 
 def stencil(ctx):
-    """{banded(bool): {'match': (di, dj), 'gap_left': ..., 'gap_top': ...}} from follow_trace"""
+    """{banded(bool): {'match': (di, dj), 'gap_left': ..., 'gap_top': ...}} from follow_trace.
+    The predecessor cells are the variables i_<move>, j_<move>; they are assigned in the two arms of `if banded:` or,
+    when both arms agree, once before it."""
     f = ctx.src(TT).func("follow_trace")
     out = {}
-    for st in ast.walk(f):
-        if isinstance(st, ast.If) and isinstance(st.test, ast.Name) and st.test.id == "banded":
-            for banded, body in ((True, st.body), (False, st.orelse)):
-                cells = {}
-                for b in body:
-                    if isinstance(b, ast.Assign) and isinstance(b.targets[0], ast.Tuple) and isinstance(b.value, ast.Tuple):
-                        for t, v in zip(b.targets[0].elts, b.value.elts):
-                            axis, _, move = t.id.partition("_")
-                            off = 0
-                            if isinstance(v, ast.BinOp):
-                                off = v.right.value * (1 if isinstance(v.op, ast.Add) else -1)
-                            cells.setdefault(move, {})[axis] = off
-                sten = {m: (d["i"], d["j"]) for m, d in cells.items() if "i" in d and "j" in d}
-                if banded in out and out[banded] != sten:
-                    raise AnalysisError("follow_trace: linear and affine parts use different stencils")
-                out[banded] = sten
-    if set(out) != {True, False} or any(set(v) != {"match", "gap_left", "gap_top"} for v in out.values()):
+    MOVES = ("match", "gap_left", "gap_top")
+
+    def cell_assignments(stmts_):
+        cells = {}
+        for b in stmts_:
+            pairs = []
+            if isinstance(b, ast.Assign) and isinstance(b.targets[0], ast.Tuple) and isinstance(b.value, ast.Tuple) \
+                    and len(b.targets[0].elts) == len(b.value.elts):
+                pairs = list(zip(b.targets[0].elts, b.value.elts))
+            elif isinstance(b, ast.Assign) and isinstance(b.targets[0], ast.Name):
+                pairs = [(b.targets[0], b.value)]
+            for t, v in pairs:
+                if not isinstance(t, ast.Name):
+                    continue
+                axis, _, move = t.id.partition("_")
+                if axis not in ("i", "j") or move not in MOVES:
+                    continue
+                off = None
+                if isinstance(v, ast.Name) and v.id == axis:
+                    off = 0
+                elif isinstance(v, ast.BinOp) and isinstance(v.left, ast.Name) and v.left.id == axis and isinstance(v.right, ast.Constant) \
+                        and isinstance(v.op, (ast.Add, ast.Sub)):
+                    off = v.right.value * (1 if isinstance(v.op, ast.Add) else -1)
+                if off is None:
+                    raise AnalysisError("anchor vanished: predecessor cell " + ast.unparse(b)[:60])
+                cells.setdefault(move, {})[axis] = off
+        return cells
+
+    for parent in ast.walk(f):
+        for fld in ("body", "orelse"):
+            block = getattr(parent, fld, None)
+            if not isinstance(block, list):
+                continue
+            for k, st in enumerate(block):
+                if isinstance(st, ast.If) and isinstance(st.test, ast.Name) and st.test.id == "banded":
+                    common = cell_assignments(block[:k])
+                    for banded, body in ((True, st.body), (False, st.orelse)):
+                        cells = {m: dict(d) for m, d in common.items()}
+                        for m, d in cell_assignments(body).items():
+                            cells.setdefault(m, {}).update(d)
+                        sten = {m: (d["i"], d["j"]) for m, d in cells.items() if "i" in d and "j" in d}
+                        if banded in out and out[banded] != sten:
+                            raise AnalysisError("follow_trace: linear and affine parts use different stencils")
+                        out[banded] = sten
+    if set(out) != {True, False} or any(set(v) != set(MOVES) for v in out.values()):
         raise AnalysisError("anchor vanished: stencil assignments of follow_trace")
     return out
 
